@@ -212,24 +212,108 @@ func describe(c Case, rs *runState, obs observation, fs []finding) string {
 // hitting one root cause share one fingerprint. Deterministic (greedy, fixed
 // order), memoised.
 type minimiser struct {
-	w    *worker
-	memo map[string]bool
-	runs int
+	w     *worker
+	memo  map[string]verdict
+	runs  int
+	flaky int
 }
 
-func (m *minimiser) fails(c Case, pos string) bool {
+// pointKind abstracts an observation point, so that cases with different kinds
+// and option counts can be compared.
+func pointKind(where string) string {
+	switch {
+	case where == "Header()" || where == "Trailer()":
+		return "method"
+	case strings.HasPrefix(where, "grpc."):
+		return "option"
+	}
+	return where // incoming | handler | RecvMsg
+}
+
+// elements of a verdict for one position: how@pointKind, sorted, unique; nil = the position holds.
+func elements(pos string, fs []finding) []string {
+	set := map[string]bool{}
+	for _, f := range fs {
+		if f.Pos == pos {
+			set[f.How+"@"+pointKind(f.Where)] = true
+		}
+	}
+	var out []string
+	for e := range set {
+		out = append(out, e)
+	}
+	sort.Strings(out)
+	return out
+}
+
+type verdict struct {
+	els    []string
+	clause string
+}
+
+// eval runs the case (memoised: one run per case and position, so that all
+// decisions about a case are taken on the same observation) and returns the
+// elements of its verdict at pos.
+func (m *minimiser) eval(c Case, pos string) []string { return m.verdict(c, pos).els }
+
+func (m *minimiser) verdict(c Case, pos string) verdict {
 	if !c.valid() {
-		return false
+		return verdict{}
 	}
 	k := pos + "||" + c.key()
 	if v, ok := m.memo[k]; ok {
 		return v
 	}
-	rs, obs := m.w.run(c)
-	m.runs++
-	v := hasPos(check(c, rs, obs), pos) || obs.panicked != "" || rs.panicked != ""
+	once := func() verdict {
+		rs, obs := m.w.run(c)
+		m.runs++
+		fs := check(c, rs, obs)
+		if obs.panicked != "" || rs.panicked != "" {
+			return verdict{[]string{"panic@any"}, "panic"}
+		}
+		return verdict{elements(pos, fs), clause(c, pos, fs)}
+	}
+	v := once()
+	if v.els != nil {
+		// a failure only counts when it shows three times in a row: timing-dependent
+		// failures must not steer the minimisation
+		for i := 0; i < 2; i++ {
+			if w := once(); strings.Join(w.els, ",") != strings.Join(v.els, ",") {
+				v = verdict{}
+				m.flaky++
+				break
+			}
+		}
+	}
 	m.memo[k] = v
 	return v
+}
+
+// match: does the candidate show the same failure as the target? Every element
+// of the target whose kind of observation point exists in the candidate (no
+// Header()/Trailer() on unary calls, no option target with opts=0) must be
+// among the candidate's, and there must be at least one such element.
+func match(cand Case, candEl, target []string) bool {
+	have := map[string]bool{}
+	for _, e := range candEl {
+		have[e] = true
+	}
+	n := 0
+	for _, e := range target {
+		pk := e[strings.LastIndex(e, "@")+1:]
+		if (pk == "method" && cand.Kind == "U") || (pk == "option" && cand.Opts == 0) {
+			continue
+		}
+		if !have[e] {
+			return false
+		}
+		n++
+	}
+	return n > 0
+}
+
+func (m *minimiser) fails(c Case, pos string, target []string) bool {
+	return match(c, m.eval(c, pos), target)
 }
 
 func posMap(c *Case, pos string) *[]KV {
@@ -252,7 +336,8 @@ func posMode(c *Case, pos string) (*string, string) {
 	return &c.TrlMode, baseTrlMode
 }
 
-func (m *minimiser) minimise(c Case, pos string) Case {
+// minimise returns ok=false when the failure of c itself does not reproduce.
+func (m *minimiser) minimise(c Case, pos string, target []string) (Case, bool) {
 	c = c.clone()
 	try := func(mut func(*Case)) bool {
 		d := c.clone()
@@ -260,7 +345,7 @@ func (m *minimiser) minimise(c Case, pos string) Case {
 		if d.key() == c.key() {
 			return false
 		}
-		if m.fails(d, pos) {
+		if m.fails(d, pos, target) {
 			c = d
 			return true
 		}
@@ -292,52 +377,96 @@ func (m *minimiser) minimise(c Case, pos string) Case {
 		try(func(d *Case) { d.NResp = 0 })
 		try(func(d *Case) { d.HdrFirst = true })
 	}
-	// 2. the payload: one key, fewest values, simplest values, simplest key
-	for changed := true; changed; {
-		changed = false
-		cur := *posMap(&c, pos)
-		if len(cur) > 1 {
-			for i := range cur {
-				i := i
-				if try(func(d *Case) { *posMap(d, pos) = []KV{(*posMap(d, pos))[i]} }) {
-					changed = true
-					break
+	// 2. the payloads: one key, fewest values, simplest values, simplest key; first the failing position's, then
+	// whatever had to stay in the other positions (a failure may depend on what travels next to it)
+	shrink := func(q string) {
+		for changed := true; changed; {
+			changed = false
+			cur := *posMap(&c, q)
+			if len(cur) > 1 {
+				for i := range cur {
+					i := i
+					if try(func(d *Case) { *posMap(d, q) = []KV{(*posMap(d, q))[i]} }) {
+						changed = true
+						break
+					}
+				}
+				if changed {
+					continue
+				}
+				for i := range cur {
+					i := i
+					if try(func(d *Case) { mp := posMap(d, q); *mp = append((*mp)[:i:i], (*mp)[i+1:]...) }) {
+						changed = true
+						break
+					}
+				}
+				if changed {
+					continue
 				}
 			}
-			if changed {
-				continue
-			}
-			for i := range cur {
-				i := i
-				if try(func(d *Case) { mp := posMap(d, pos); *mp = append((*mp)[:i:i], (*mp)[i+1:]...) }) {
-					changed = true
+			for e := range cur {
+				e := e
+				for i := range cur[e].Vals {
+					i := i
+					if len(cur[e].Vals) > 1 && try(func(d *Case) {
+						v := (*posMap(d, q))[e].Vals
+						(*posMap(d, q))[e].Vals = append(v[:i:i], v[i+1:]...)
+					}) {
+						changed = true
+						break
+					}
+				}
+				if changed {
 					break
 				}
-			}
-			if changed {
-				continue
-			}
-		}
-		for e := range cur {
-			e := e
-			for i := range cur[e].Vals {
-				i := i
-				if len(cur[e].Vals) > 1 && try(func(d *Case) {
-					v := (*posMap(d, pos))[e].Vals
-					(*posMap(d, pos))[e].Vals = append(v[:i:i], v[i+1:]...)
-				}) {
-					changed = true
+				for i, id := range cur[e].Vals {
+					i := i
+					for j := 0; j < valIndex(cur[e].Key, id); j++ {
+						simpler := alphaOf(cur[e].Key)[j].ID
+						if try(func(d *Case) { (*posMap(d, q))[e].Vals[i] = simpler }) {
+							changed = true
+							break
+						}
+					}
+					if changed {
+						break
+					}
+				}
+				if changed {
 					break
 				}
-			}
-			if changed {
-				break
-			}
-			for i, id := range cur[e].Vals {
-				i := i
-				for j := 0; j < valIndex(cur[e].Key, id); j++ {
-					simpler := alphaOf(cur[e].Key)[j].ID
-					if try(func(d *Case) { (*posMap(d, pos))[e].Vals[i] = simpler }) {
+				if isBin(cur[e].Key) {
+					// is the binary-ness of the key needed at all? (plain key "k", every value "v")
+					clash := false
+					for _, o := range cur {
+						if o.Key == "k" {
+							clash = true
+						}
+					}
+					if !clash && try(func(d *Case) {
+						ent := &(*posMap(d, q))[e]
+						ent.Key = "k"
+						for i := range ent.Vals {
+							ent.Vals[i] = "v"
+						}
+					}) {
+						changed = true
+						break
+					}
+				}
+				for _, k := range sameTypeKeys(cur[e].Key) {
+					if k == cur[e].Key {
+						break
+					}
+					k := k
+					clash := false
+					for _, o := range cur {
+						if o.Key == k {
+							clash = true
+						}
+					}
+					if !clash && try(func(d *Case) { (*posMap(d, q))[e].Key = k }) {
 						changed = true
 						break
 					}
@@ -346,90 +475,177 @@ func (m *minimiser) minimise(c Case, pos string) Case {
 					break
 				}
 			}
-			if changed {
-				break
-			}
-			for _, k := range sameTypeKeys(cur[e].Key) {
-				if k == cur[e].Key {
-					break
-				}
-				k := k
-				clash := false
-				for _, o := range cur {
-					if o.Key == k {
-						clash = true
+		}
+	}
+	shrink(pos)
+	for _, q := range positions {
+		if q != pos && len(*posMap(&c, q)) > 0 {
+			shrink(q)
+		}
+	}
+	// (free when any step above was accepted: the accepted case is memoised)
+	return c, m.fails(c, pos, target)
+}
+
+// ctxParams: everything of a case that is neither payload, kind nor transport.
+type ctxParams struct {
+	Mode     string // attach mode of the failing position
+	Fail     bool
+	NResp    int
+	HdrFirst bool
+	Opts     int
+}
+
+func (p ctxParams) mods(pos string) int {
+	n := 0
+	var c Case
+	_, base := posMode(&c, pos)
+	if p.Mode != base {
+		n++
+	}
+	if p.Fail {
+		n++
+	}
+	if p.NResp != 0 {
+		n++
+	}
+	if !p.HdrFirst {
+		n++
+	}
+	if p.Opts != 1 {
+		n++
+	}
+	return n
+}
+
+// contexts lists every context of the grammar, the baseline first, then by
+// the number of parameters that differ from the baseline (stable).
+func contexts(pos string) []ctxParams {
+	var out []ctxParams
+	for _, mode := range modesOf(pos) {
+		for _, fail := range []bool{false, true} {
+			for nresp := 0; nresp <= 1; nresp++ {
+				for _, hf := range []bool{true, false} {
+					for _, opts := range []int{1, 0, 2} {
+						out = append(out, ctxParams{mode, fail, nresp, hf, opts})
 					}
 				}
-				if !clash && try(func(d *Case) { (*posMap(d, pos))[e].Key = k }) {
-					changed = true
+			}
+		}
+	}
+	sort.SliceStable(out, func(i, j int) bool { return out[i].mods(pos) < out[j].mods(pos) })
+	return out
+}
+
+func withContext(c Case, pos, transport, kind string, p ctxParams) Case {
+	d := c.clone()
+	d.Transport, d.Kind = transport, kind
+	mode, _ := posMode(&d, pos)
+	*mode = p.Mode
+	d.Fail, d.NResp, d.HdrFirst, d.Opts = p.Fail, p.NResp, p.HdrFirst, p.Opts
+	return d
+}
+
+// familyOf: the in-process channel and the HTTP channel are separate
+// implementations; a failure is minimised and classified within the family it
+// was met in (a defect in code they share gets one fingerprint per family).
+func familyOf(transport string) []string {
+	if transport == "inproc" {
+		return []string{"inproc"}
+	}
+	return []string{"http-rec", "http-wire", "http-net", "http-gate"}
+}
+
+// canonical finds, for the payload of c, the representative: the failing case
+// with the fewest non-baseline parameters over the family's transports, all
+// kinds and contexts (ties: kind order, then transport order), and on which
+// transports and kinds the same failure shows in the representative's context.
+// Independent of the case the minimisation started from.
+func (m *minimiser) canonical(c Case, pos string, target []string) (rep Case, transports, kinds []string, ok bool) {
+	ctxs := contexts(pos)
+	best := len(ctxs)
+	for _, t := range familyOf(c.Transport) {
+		for _, k := range allKinds {
+			for i, p := range ctxs {
+				d := withContext(c, pos, t, k, p)
+				if !d.valid() {
+					continue
+				}
+				if m.fails(d, pos, target) {
+					if i < best || (i == best && kindOrder(k) < kindOrder(rep.Kind)) {
+						best, rep, ok = i, d, true
+					}
 					break
 				}
 			}
-			if changed {
-				break
-			}
 		}
 	}
-	return c
-}
-
-// kindVariant adapts the kind-specific parameters; ok=false when the case has no counterpart for that kind.
-func kindVariant(c Case, kind string) (Case, bool) {
-	d := c.clone()
-	d.Kind = kind
-	if kind == "U" {
-		d.NResp, d.HdrFirst = 0, true
+	if !ok {
+		return rep, nil, nil, false
 	}
-	if kind == "CS" {
-		d.NResp = 0
+	// where else does the representative's failure show (same elements), in the representative's own context?
+	// (Only that context: another defect that needs another context must not widen this one's classes.)
+	same := m.eval(rep, pos)
+	mode, _ := posMode(&rep, pos)
+	rp := ctxParams{*mode, rep.Fail, rep.NResp, rep.HdrFirst, rep.Opts}
+	kindHit := map[string]bool{}
+	for _, t := range familyOf(c.Transport) {
+		thit := false
+		for _, k := range allKinds {
+			p := rp
+			if k == "U" {
+				p.NResp, p.HdrFirst = 0, true
+			}
+			if k == "CS" {
+				p.NResp = 0
+			}
+			d := withContext(c, pos, t, k, p)
+			if d.valid() && m.fails(d, pos, same) {
+				thit, kindHit[k] = true, true
+			}
+		}
+		if thit {
+			transports = append(transports, t)
+		}
 	}
-	return d, d.valid()
-}
-
-// fingerprint of a minimised case: which transports and kinds it fails on, the
-// payload, the clause, and every parameter that could not be put back to its baseline.
-func (m *minimiser) fingerprint(c Case, pos string) (fp string, rep Case, ok bool) {
-	// simplest kind first
-	var kinds []string
-	var first *Case
 	for _, k := range allKinds {
-		d, valid := kindVariant(c, k)
-		if !valid {
-			continue
-		}
-		var ts []string
-		for _, t := range libTransports {
-			d.Transport = t
-			if m.fails(d, pos) {
-				ts = append(ts, t)
-				if first == nil {
-					x := d.clone()
-					first = &x
-				}
-			}
-		}
-		if len(ts) > 0 {
+		if kindHit[k] {
 			kinds = append(kinds, k)
 		}
 	}
-	if first == nil {
-		return "", c, false
-	}
-	rep = *first
-	// transports: on the representative's kind
-	var ts []string
-	for _, t := range libTransports {
-		d := rep.clone()
-		d.Transport = t
-		if m.fails(d, pos) {
-			ts = append(ts, t)
+	return rep, transports, kinds, ok
+}
+
+func kindOrder(k string) int {
+	for i, x := range allKinds {
+		if x == k {
+			return i
 		}
 	}
+	return len(allKinds)
+}
+
+// fingerprint: which transports and kinds the minimal payload fails on, the
+// payload, the clause, and every parameter of the representative that is not at its baseline.
+func (m *minimiser) fingerprint(c Case, pos string, target []string) (fp string, rep Case, ok bool) {
+	var ts, kinds []string
+	for round := 0; ; round++ {
+		rep, ts, kinds, ok = m.canonical(c, pos, target)
+		if !ok {
+			return "", c, false
+		}
+		// the payload may shrink further in the representative's context
+		again, _ := m.minimise(rep, pos, target)
+		if round == 3 || payloadKey(again) == payloadKey(c) {
+			break
+		}
+		c = again
+	}
+	// (http-gate carries no unary calls)
+	onlyUnary := len(kinds) == 1 && kinds[0] == "U"
 	tclass := strings.Join(ts, "+")
-	if strings.Join(ts, "+") == "http-rec+http-wire+http-net" {
+	if tclass == "http-rec+http-wire+http-net+http-gate" || (onlyUnary && tclass == "http-rec+http-wire+http-net") {
 		tclass = "http"
-	} else if len(ts) == len(libTransports) {
-		tclass = "all-transports"
 	}
 	kclass := strings.Join(kinds, "+")
 	switch kclass {
@@ -438,12 +654,7 @@ func (m *minimiser) fingerprint(c Case, pos string) (fp string, rep Case, ok boo
 	case "CS+SS+BD":
 		kclass = "streams"
 	}
-	rs, obs := m.w.run(rep)
-	fs := check(rep, rs, obs)
-	cl := clause(rep, pos, fs)
-	if obs.panicked != "" || rs.panicked != "" {
-		cl = "panic"
-	}
+	cl := m.verdict(rep, pos).clause
 	var mods []string
 	for _, p := range positions {
 		mode, base := posMode(&rep, p)
@@ -471,4 +682,8 @@ func (m *minimiser) fingerprint(c Case, pos string) (fp string, rep Case, ok boo
 		fp += "|" + strings.Join(mods, ",")
 	}
 	return fp, rep, true
+}
+
+func payloadKey(c Case) string {
+	return kvString(c.Req) + "|" + kvString(c.Hdr) + "|" + kvString(c.Trl)
 }
